@@ -101,6 +101,13 @@ func checkC02(c *Check) {
 	// never run again on the same queue (rules of C15)
 	nf := importRules(c, "C15", checkC15, "failed-release-stops: ", "no-error-dropped", "error-handoff-keeps-first-error", "processor-returns-received-error")
 	c.Floor("imported failed-release-stops obligations", 20, nf)
+	// a login and the LOGIN record it matches meet: each delivery is one
+	// critical section (C03), and a session's age is its arrival time, so
+	// that held events are not discarded by the cleanup before the staleness
+	// window has passed (C16)
+	na := importRules(c, "C03", checkC03, "delivery-is-atomic: ", "S2 one-critical-section")
+	na += importRules(c, "C16", checkC16, "held-until-stale: ", "age-sources")
+	c.Floor("imported delivery-is-atomic / held-until-stale obligations", 5, na)
 	isDelivered := func(e *Org) bool { return e != nil && e.K != "index" && e.K != "range" }
 
 	// 1-3: callbacks of lookups keyed by the event's session
